@@ -488,6 +488,77 @@ class ReaderHist(Component):
         op, cf = parse_case(case)
         return ['reader=' + cf['reader'], 'seekpol=' + cf.get('seekpol', '?'), 'ch=' + cf['ch'], 'bps=' + cf['bps']]
 
+# ------------------------------------------------------------------------------------------------
+# C08 — writer call histories
+# ------------------------------------------------------------------------------------------------
+class WriterHist(Component):
+    """the same PCM through the three writer front-ends, both byte orders and many partitions into
+    write calls; the harness also writes the reference (one call, sample writer) and compares bytes"""
+    name = 'wrhist'
+    ops = ('wr',)
+    profiles = ('release',)
+    ignore = ('file',)
+    def cases(self, rng, tier, boost):
+        out = []
+        ninputs = 12 if tier == 'quick' else 60
+        per = self.budget(tier, boost, 700, 40000) // ninputs
+        for i in range(ninputs):
+            ch = rng.choice([1, 2, 2, 3, 5, 8])
+            bps = rng.choice([8, 16, 24, 32, 12, 20, 7, 17])
+            bs = rng.choice([16, 17, 32])
+            frames = rng.choice([1, 2, 5, bs - 1, bs, bs + 1, 2 * bs, 2 * bs + 3, 3 * bs + 7])
+            pcm, shape = gen.pcm_multi(rng, frames, ch, bps)
+            base = {'rate': 44100, 'ch': ch, 'bps': bps, 'bs': bs, 'pad': 0, 'seek': rng.choice(['off', 'frames:1', 'default']), 'ref': 1,
+                    'lpc': rng.choice(['none', '4', '8'])}
+            bpsb = (bps + 7) // 8
+            k = 0
+            while k < per:
+                fe = rng.choice(['byte', 'sample', 'chan'])
+                f = dict(base); f['fe'] = fe
+                if fe == 'byte':
+                    f['endian'] = rng.choice(['le', 'be'])
+                unit_total = {'byte': len(pcm) * bpsb, 'sample': len(pcm), 'chan': frames}[fe]
+                extra = []
+                # a trailing partial PCM frame (never for the channel writer, which cannot express one)
+                if fe != 'chan' and rng.random() < 0.4 and ch > 1:
+                    extra = [gen.clamp(rng.randint(-100, 100), bps) for _ in range(rng.randint(1, ch - 1))]
+                if fe == 'byte' and rng.random() < 0.2:
+                    unit_total += 0
+                total_units = unit_total + len(extra) * (bpsb if fe == 'byte' else 1)
+                mode = rng.random()
+                if mode < 0.35 and total_units <= 80:
+                    # every single split point
+                    sp = k % (total_units + 1)
+                    chunks = [sp] if sp else []
+                elif mode < 0.6:
+                    a, b = sorted([rng.randint(0, total_units), rng.randint(0, total_units)])
+                    chunks = [a, b - a]
+                elif mode < 0.8:
+                    chunks = [1] * min(total_units, 40)
+                else:
+                    chunks = [rng.randint(0, max(1, total_units // 2)) for _ in range(rng.randint(0, 6))]
+                if rng.random() < 0.5 and not extra:
+                    f['total'] = unit_total
+                f['chunks'] = gen.join(chunks)
+                f['partial'] = len(extra)
+                f['pcm'] = gen.join(pcm + extra)
+                out.append('wr ' + gen.fields_str(f))
+                k += 1
+        return out
+    def oracle(self, case, impl, profile):
+        op, cf = parse_case(case)
+        h, cls, f = parse_outcome(impl)
+        if h == 'panic':
+            return (f'{self.name}:panic:{cls}', f'writer panicked (front-end {cf["fe"]}, trailing partial PCM frame of {cf.get("partial")} samples): ' + cls)
+        if h != 'ok':
+            return (f'{self.name}:failed:{cls}', 'writing legal PCM failed: ' + impl[:200])
+        if f.get('sameasref') != 'true':
+            return (f'{self.name}:differs-from-reference:{cf["fe"]}', f'file differs from the one-call sample-writer reference ({f.get("sameasref")})')
+        return None
+    def classify(self, case, impl):
+        op, cf = parse_case(case)
+        return ['fe=' + cf['fe'], 'partial=' + ('yes' if cf.get('partial', '0') != '0' else 'no'), 'ncalls=' + str(min(5, cf.get('chunks', '-').count(',') + 1))]
+
 PROPS = {}
 NOT_YET = {}
 
@@ -608,4 +679,23 @@ PROPS['C06'] = dict(
     note='TableTruthful is a hypothesis (C09 shows it for files written by the crate). The channel reader seek is covered by the correspondence and oracle only.',
     trusted_base=COMMON_TRUST,
     assumptions=['TableTruthful: every defined seek point names the first sample and byte offset of a real frame'],
+)
+
+PROPS['C08'] = dict(
+    module='FlacModel.Props.C08',
+    theorems=['Flac.C08.splitFull_spec', 'Flac.C08.decomposition_unique', 'Flac.C08.write_inv', 'Flac.C08.writes_inv',
+              'Flac.C08.writer_chunking_indep', 'Flac.C08.finalize_chunking_indep', 'Flac.C08.partial_pcm_frame_dropped'],
+    components=[WriterHist()],
+    rule='12 (quick) / 60 (thorough) PCM inputs (1-8 channels, depths 7-32, lengths around the block size) x byte/sample/channel writer x both byte orders x '
+         'partitions into write calls (every single split point for inputs up to 80 units, two-split, all-ones, random) x trailing partial PCM frames; the harness '
+         'writes the one-call sample-writer reference and compares the files byte for byte; the Lean writer state machine predicts block lengths, total and MD5; '
+         'non-trivial = file written',
+    claim='writer_chunking_indep / finalize_chunking_indep: for EVERY list of write calls the blocks handed to the encoder (and the carry-over) equal those of one call '
+          'with the concatenated input - by the invariant write_inv (induction over the call list) and uniqueness of the block decomposition; '
+          'partial_pcm_frame_dropped: what is encoded is exactly the input truncated to whole PCM frames and no empty block is ever encoded. The three front-ends are '
+          'instances of one generic machine (unit = byte / sample / PCM frame).',
+    note='Byte identity additionally needs the frame encoder to be a function of its block: true modulo the f64 analysis, which is exercised by the reference '
+         'comparison on every case (and across runs), not proved. MD5 and byte-order conversion per block vs per stream are checked by the correspondence.',
+    trusted_base=COMMON_TRUST,
+    assumptions=['a block is a whole number of PCM frames (q divides F) - true by construction of frame_byte_size / frame_sample_size'],
 )
